@@ -279,6 +279,9 @@ def random_key(rng, sizes, p_slice=0.27):
             key.append(rng.randint(-s, -1))
         else:
             key.append(rng.randint(0, s - 1))
+    if rng.random() < 0.2:  # numpy integer scalars instead of python ints (valid indices that are not `int` instances)
+        t = rng.choice(["int64", "int32", "intp", "uint8"])
+        key = [({"np": t, "v": c} if isinstance(c, int) and (c >= 0 or t != "uint8") and rng.random() < 0.7 else c) for c in key]
     return key
 
 
